@@ -6,6 +6,7 @@
 """
 IProxyParser implementation for version one of the PROXY protocol.
 """
+import ipaddress
 from typing import Tuple, Union
 
 from zope.interface import implementer
@@ -125,18 +126,57 @@ class V1Parser:
         with convertError(ValueError, MissingAddressData):
             sourcePort, line = line.split(b" ", 1)
 
-        with convertError(ValueError, MissingAddressData):
-            destPort = line.split(b" ")[0]
+        destPort = line
+
+        # Exactly the six documented fields, with well-formed values: anything
+        # else is not a PROXY header and must not be accepted as one.
+        sourceHost = cls._checkAddress(networkProtocol, sourceAddr)
+        destHost = cls._checkAddress(networkProtocol, destAddr)
+        sourcePortNumber = cls._checkPort(sourcePort)
+        destPortNumber = cls._checkPort(destPort)
 
         if networkProtocol == cls.TCP4_PROTO:
             return _info.ProxyInfo(
                 originalLine,
-                address.IPv4Address("TCP", sourceAddr.decode(), int(sourcePort)),
-                address.IPv4Address("TCP", destAddr.decode(), int(destPort)),
+                address.IPv4Address("TCP", sourceHost, sourcePortNumber),
+                address.IPv4Address("TCP", destHost, destPortNumber),
             )
 
         return _info.ProxyInfo(
             originalLine,
-            address.IPv6Address("TCP", sourceAddr.decode(), int(sourcePort)),
-            address.IPv6Address("TCP", destAddr.decode(), int(destPort)),
+            address.IPv6Address("TCP", sourceHost, sourcePortNumber),
+            address.IPv6Address("TCP", destHost, destPortNumber),
         )
+
+    @classmethod
+    def _checkAddress(cls, networkProtocol: bytes, value: bytes) -> str:
+        """
+        Check that C{value} is a literal address of the family named by
+        C{networkProtocol}.
+
+        @raises InvalidProxyHeader: If it is not.
+        """
+        try:
+            text = value.decode("ascii")
+            if networkProtocol == cls.TCP4_PROTO:
+                ipaddress.IPv4Address(text)
+            else:
+                ipaddress.IPv6Address(text)
+        except ValueError:
+            raise InvalidProxyHeader()
+        return text
+
+    @staticmethod
+    def _checkPort(value: bytes) -> int:
+        """
+        Check that C{value} is a decimal port number in [0..65535] without
+        leading zeros.
+
+        @raises InvalidProxyHeader: If it is not.
+        """
+        if not value.isdigit() or (len(value) > 1 and value.startswith(b"0")):
+            raise InvalidProxyHeader()
+        port = int(value)
+        if port > 65535:
+            raise InvalidProxyHeader()
+        return port
